@@ -658,6 +658,11 @@ def run_fwd(rp, ops):
     FakePutter.log = []
     saved = sb.ru.zmq.Putter
     sb.ru.zmq.Putter = FakePutter
+    errors = []
+    def ctl(msg):
+        # (an exception in a control callback is logged by the subscriber's listener; the component goes on)
+        try: s.control_cb('control_pubsub', msg)
+        except Exception as e: errors.append('%s: %s' % (msg['cmd'], type(e).__name__))
     try:
         for o in ops:
             if o[0] == 'incoming':
@@ -673,18 +678,18 @@ def run_fwd(rp, ops):
                     s._queue_sched.put(([t for t in ts if t['uid'] in uids], s._SCHEDULE))
                 s._schedule_incoming()
             elif o[0] == 'register':
-                s.control_cb('control_pubsub', {'cmd': 'register_raptor_queue', 'arg': {'name': 'master.%d' % o[1], 'queue': 'q', 'addr': str(o[1])}})
+                ctl({'cmd': 'register_raptor_queue', 'arg': {'name': 'master.%d' % o[1], 'queue': 'q', 'addr': str(o[1])}})
             elif o[0] == 'unregister':
-                s.control_cb('control_pubsub', {'cmd': 'unregister_raptor_queue', 'arg': {'name': 'master.%d' % o[1]}})
+                ctl({'cmd': 'unregister_raptor_queue', 'arg': {'name': 'master.%d' % o[1]}})
             else:
-                s.control_cb('control_pubsub', {'cmd': 'cancel_tasks', 'arg': {'uids': list(o[1])}})
+                ctl({'cmd': 'cancel_tasks', 'arg': {'uids': list(o[1])}})
     finally:
         sb.ru.zmq.Putter = saved
     def key(k): return None if k == '*' else int(k.split('.')[1])
     return {'queues': [int(k.split('.')[1]) for k in s._raptor_queues],
             'backlog': [[key(k), [t['uid'] for t in v]] for k, v in s._raptor_tasks.items()],
             'delivered': FakePutter.log, 'failed': failed,
-            'canceled': [e[0] for e in s.events if e[1] == 'CANCELED']}
+            'canceled': [e[0] for e in s.events if e[1] == 'CANCELED'], 'errors': errors}
 
 
 def gen_fwd(rng):
@@ -717,6 +722,8 @@ def fwd_monitor(ops, r, n):
         if places != 1:
             bad.append(('scheduler:raptor-request-not-accounted-once', 'request %d: delivered %d times, failed %s, canceled %s, waiting %s'
                         % (t, seen.get(t, 0), t in r['failed'], t in r['canceled'], t in waiting)))
+    if r.get('errors'):
+        bad.append(('scheduler:control-callback-raises', 'the scheduler\'s control callback raised: %s' % r['errors']))
     for k, ts in r['backlog']:
         if ts and ((k is None and r['queues']) or (k is not None and k in r['queues'])):
             bad.append(('scheduler:raptor-request-waits-although-master-registered',
@@ -771,7 +778,7 @@ def run(ctx):
         ctx.case(fops[-1], nontrivial=bool(r['delivered']))
         for sig, what in fwd_monitor(ops_, r, n_):
             ctx.fail(sig, what, {'kind': 'fwd', 'ops': ops_, 'n': n_})
-    common.compare(ctx, 'raptor', fops, fimpl, canon=lambda x: {k: (v if k != 'backlog' else [e for e in v if e[1]]) for k, v in x.items()} if isinstance(x, dict) else x,
+    common.compare(ctx, 'raptor', fops, fimpl, canon=lambda x: {k: (v if k != 'backlog' else [e for e in v if e[1]]) for k, v in x.items() if k != 'errors'} if isinstance(x, dict) else x,
                    what='real scheduler raptor backlog: _schedule_incoming forwarding, register/unregister_raptor_queue, cancel')
     # (C)
     dops, dimpl = [], []
@@ -827,6 +834,18 @@ def run(ctx):
         for sig, what in life_monitor(obs, answers):
             ctx.fail(sig, what, {'kind': 'life', 'choices': cs})
     common.compare(ctx, 'raptor', lops, limpl, what='real DefaultWorker request life cycle under cooperative multiprocessing (final state per schedule)')
+    # ... and a rank process that dies before it reports (the payload ends the process: sys.exit, a crash): the request is
+    # answered all the same (as failed), once, and its resources come back
+    for cs in scheds[:ctx.n(40, 600)]:
+        if 'timeout' in cs: continue
+        dead = {'uid': 'req.0', 'cores': 1, 'gpus': 0, 'task_sandbox_path': ctx.scratch + '/req.0',
+                'description': {'mode': 'task.eval', 'code': '(_ for _ in ()).throw(SystemExit(3))', 'timeout': 5, 'environment': {}}}
+        obs, done, answers = run_life(rp, cs, ctx.scratch, task=dead)
+        ctx.case({'life_dead': done}, nontrivial=True)
+        for sig, what in life_monitor(obs, answers):
+            ctx.fail(sig + ':rank-process-died', what + ' (the rank process ended without a result)', {'kind': 'life_dead', 'choices': cs})
+        if len(answers) == 1 and answers[0].get('exit_code') == 0:
+            ctx.fail('worker:dead-rank-process-reported-as-success', str(answers[0].get('exit_code')), {'kind': 'life_dead', 'choices': cs})
     # (D+) the outcome of one request over the whole worker-side path
     kops, kimpl = [], []
     for i in range(ctx.n(3, 40)):
@@ -902,6 +921,12 @@ def replay(ctx, data):
             ok = ok and got == [want.get(k) for k in (1, 2, 3, 4)]
         print('observed:', seen)
         return ok
+    if i['kind'] == 'life_dead':
+        dead = {'uid': 'req.0', 'cores': 1, 'gpus': 0, 'task_sandbox_path': ctx.scratch + '/req.0',
+                'description': {'mode': 'task.eval', 'code': '(_ for _ in ()).throw(SystemExit(3))', 'timeout': 5, 'environment': {}}}
+        obs, done, answers = run_life(rp, i['choices'], ctx.scratch, task=dead)
+        bad = life_monitor(obs, answers); print(obs[-1], bad)
+        return not bad and not (len(answers) == 1 and answers[0].get('exit_code') == 0)
     if i['kind'] == 'life':
         obs, done, answers = run_life(rp, i['choices'], ctx.scratch)
         bad = life_monitor(obs, answers); print(obs[-1], bad); return not bad
